@@ -431,7 +431,10 @@ def main():
         f = getattr(anp.fft, nm)
         x2 = rs.uniform(0.5, 1.5, (4, 4))
         for kw in ({}, {"s": (4, 4)}, {"s": (2, 4)}, {"s": (6, 4)}, {"axes": (0, 1)}, {"axes": (1, 0)}, {"axes": (0, 0)}, {"axes": (1, 1)},
-                   {"axes": (-1, -2)}, {"norm": "ortho"}, {"s": (4, 6), "axes": (1, 0)}):
+                   {"axes": (-1, -2)}, {"norm": "ortho"}, {"s": (4, 6), "axes": (1, 0)},
+                   # a repeated axis together with explicit lengths (the same axis resized twice)
+                   {"s": (3, 5), "axes": (0, 0)}, {"s": (2, 6), "axes": (1, 1)}, {"s": (4, 4), "axes": (0, 0)}, {"s": (6, 2), "axes": (-1, 1)},
+                   {"s": (4, 2, 6), "axes": (0, 1, 0)}):
             ror("fft.%s(x,%r)" % (nm, kw), lambda z, f=f, kw=kw: f(z, **kw), x2)
     for nm in ("fftshift", "ifftshift"):
         f = getattr(anp.fft, nm)
